@@ -186,6 +186,37 @@ def _loaders(cx, tag, LIVE, WAIT):
     return out
 
 
+def loader_edits(cx, prop, rule):
+    """the helper that admits waiting subscribers (load) only ever ADDS to the live list: it removes nobody. Reported for the
+    properties whose observers report finished while they still have live consumers (C20: a group_by whose stream of groups ended
+    early is 'finished' to the subject, yet its groups must keep receiving items and the terminal)."""
+    F = cx.facts
+    res = []
+    if cx.control:
+        return res
+    for tag in SUBJECTS:
+        try:
+            LIVE, WAIT = _lists(cx, tag)
+        except Exception:
+            continue
+        loaders = _loaders(cx, tag, LIVE, WAIT)
+        for im in F.impls.values():
+            if roles.impl_tag(cx, im) != tag or im.get('trait'):
+                continue
+            for f in im['fns']:
+                fn = F.fns.get(f['key'])
+                if fn is None or f['n'] not in loaders:
+                    continue
+                g = cx.graph(fn['key'])
+                edits = [n for n in g.nodes if n['kind'] == 'call' and n['args'] and recv_class(n['args'][0]) == 'self.' + LIVE and
+                         n['name'].rsplit('::', 1)[-1] in ('remove', 'swap_remove', 'retain', 'retain_mut', 'truncate', 'pop', 'clear', 'dedup', 'split_off', 'drain', 'take')]
+                res.append(Finding(prop, rule, cx.label(fn), not edits,
+                                   'admitting waiting subscribers removes nobody from the live list' if not edits else
+                                   'admitting waiting subscribers also removes live ones (%s): an observer that reports finished while it still feeds live consumers (group_by after take(n) on its stream of groups) is dropped, its groups lose every later item and are never terminated' % edits[0]['name'].rsplit('::', 1)[-1],
+                                   g.loc(edits[0]) if edits else fn['span'], [node_desc(g, x) for x in edits[:2]]))
+    return res
+
+
 def _check(cx):
     F = cx.facts
     res = []
